@@ -309,7 +309,14 @@ def header_lines(rng, rows, noise=False):
         lines += ["struct pte_entry_struct static_pte_entry_table[] = {"]
     else:
         lines += ["   static   struct   pte_entry_struct   static_pte_entry_table [ N ]  =  ", "  {  "]
+    # the table in two blocks, or another "The End"-terminated array in front of it: the entries of every block count, in order
+    split = rng.randrange(1, len(rows)) if (noise and len(rows) >= 2 and rng.random() < 0.3) else None
+    if noise and rng.random() < 0.2:
+        lines[2:2] = ["struct other_entry other_table[] = {", '  { "99990000", "not a PTE entry", {}, "y.cpp", 1 },', '  { ""        , "The End" }', "};"]
     for i, (pat, fmt, params) in enumerate(rows):
+        if split is not None and i == split:
+            lines += ['  { ""        , "The End" }', "};", "", rng.choice(["struct pte_entry_struct static_pte_entry_table_more[] = {",
+                                                                            "static struct pte_entry_struct static_pte_entry_table2[N2] = {"])]
         if noise and rng.random() < 0.2:
             lines.append(rng.choice(["", "  // comment", '  { "01040000", "no trailing comma", {}, "x.cpp", 1 }',
                                      '  { "", "empty pattern", {}, "x.cpp", 1 },', '  { "01040000", "four fields", {}, 1 },',
